@@ -147,8 +147,14 @@ def lemma_text(case, out, leaves, diagnostic=False):
     head = 'forall %s %s,\n  ' % (binder, case.binders) if (binder or case.binders) else ''
     tac = case.tactic or 'bridge'
     if diagnostic:
-        return ('%sGoal %s%s.\nProof. tryif (solve [intros; %s]) then idtac "BRIDGE-OK %s" '
-                'else idtac "BRIDGE-FAIL %s". Abort.\n\n') % (comment, head, stmt, tac, name, name)
+        txt = ('%sGoal %s%s.\nProof. tryif (solve [intros; %s]) then idtac "BRIDGE-OK %s" '
+               'else idtac "BRIDGE-FAIL %s". Abort.\n\n') % (comment, head, stmt, tac, name, name)
+        if out['status'] == 'ok' and not name.endswith('__alt'):
+            # second tier (BridgeR.v): the same statement at N := ROps, proved modulo the field identities of R;
+            # only consulted by bin/check for a lemma whose first-tier proof fails
+            txt += ('Goal (fun N : NumOps => %s%s) ROps.\nProof. cbv beta. tryif (solve [intros; timeout 100 bridge_R]) '
+                    'then idtac "BRIDGE-R-OK %s" else idtac "BRIDGE-R-FAIL %s". Abort.\n\n') % (head, stmt, name, name)
+        return txt
     return '%sLemma %s : %s%s.\nProof. intros; %s. Qed.\n\n' % (comment, name, head, stmt, tac)
 
 
@@ -183,8 +189,8 @@ def emit_family(fam, imports, cases, leaves_fn, extra_header='', chunk=None):
     for gi, idxs in enumerate(groups):
         for diagnostic in (False, True):
             lines = ['(* GENERATED by tracer/gen.py from the current /repo sources — do not edit *)\n',
-                     'From Coq Require Import ZArith List Bool PrimFloat.\n',
-                     'From PV Require Import Num PyBase BridgeTac %s.\n' % ' '.join(imports),
+                     'From Coq Require Import %sZArith List Bool PrimFloat.\n' % ('Reals ' if diagnostic else ''),
+                     'From PV Require Import Num PyBase BridgeTac %s%s.\n' % ('BridgeR ' if diagnostic else '', ' '.join(imports)),
                      'Import ListNotations.\n', (extra_header if gi == 0 else ''),
                      '\nSection Bridges.\nContext (N : NumOps).\n\n']
             for i in idxs:
